@@ -62,7 +62,7 @@ let () =
   let b = Buffer.create 65536 in
   (try
     while true do
-      let line = input_line stdin in
+      let line = Stdlib.input_line Stdlib.stdin in
       if String.length line > 0 then begin
         let i = ref 0 in
         let op = parse_tree line i in
@@ -72,8 +72,8 @@ let () =
         (try print_tree b (dispatch op a)
          with Stack_overflow -> Buffer.clear b; Buffer.add_string b "[1,-2]");
         Buffer.add_char b '\n';
-        print_string (Buffer.contents b)
+        Stdlib.print_string (Buffer.contents b)
       end
     done
   with End_of_file -> ());
-  flush stdout
+  Stdlib.flush Stdlib.stdout
